@@ -114,3 +114,176 @@ Proof.
   - apply nth_In. exact Hip.
   - apply nth_In. exact His.
 Qed.
+
+(* ---------------- a point inside projects between two vertices ---------------- *)
+Lemma convex_triples poly : strictly_convex_ccw poly = true -> (3 <= length poly)%nat ->
+  forall u v w, In (u, v, w) (combine (combine (prevs poly) poly) (nexts poly)) -> 0 < cpc u v w.
+Proof.
+  intros H Hl u v w Hin. unfold strictly_convex_ccw in H.
+  destruct poly as [|a [|b [|c r]]]; try (cbn [length] in Hl; lia).
+  rewrite forallb_forall in H. specialize (H (u, v, w) Hin). cbn [fst snd] in H. apply Qltb_lt in H. exact H.
+Qed.
+Lemma inside_edges poly p : left_of_all_edges poly p = true -> (3 <= length poly)%nat ->
+  forall a b, In (a, b) (combine (prevs poly) poly) -> 0 <= cpc a b p.
+Proof.
+  intros H Hl a b Hin. unfold left_of_all_edges in H.
+  destruct poly as [|x [|y [|z r]]]; try (cbn [length] in Hl; lia).
+  rewrite forallb_forall in H. specialize (H (a, b) Hin). cbn [fst snd] in H. apply Qleb_le in H. exact H.
+Qed.
+
+Theorem inside_below_a_vertex poly c d : strictly_convex_ccw poly = true -> (3 <= length poly)%nat ->
+  left_of_all_edges poly c = true -> exists v, In v poly /\ cross d c <= cross d v.
+Proof.
+  intros Hc Hl Hin.
+  assert (Hne : poly <> []) by (destruct poly; [cbn [length] in Hl; lia|discriminate]).
+  destruct (argmax_q (cross d) poly Hne) as [A [HA Hmax]].
+  destruct (vertex_neighbours poly A Hl HA) as [u [w [Ht [E1 [E2 [Hu Hw]]]]]].
+  exists A. split; [exact HA|].
+  apply (cone_bound d u A w c).
+  - exact (convex_triples poly Hc Hl u A w Ht).
+  - exact (inside_edges poly c Hin Hl u A E1).
+  - exact (inside_edges poly c Hin Hl A w E2).
+  - apply Hmax. exact Hu.
+  - apply Hmax. exact Hw.
+Qed.
+Theorem inside_above_a_vertex poly c d : strictly_convex_ccw poly = true -> (3 <= length poly)%nat ->
+  left_of_all_edges poly c = true -> exists v, In v poly /\ cross d v <= cross d c.
+Proof.
+  intros Hc Hl Hin.
+  destruct (inside_below_a_vertex poly c (- fst d, - snd d) Hc Hl Hin) as [v [Hv H]].
+  exists v. split; [exact Hv|]. unfold cross in *. cbn [fst snd] in H. lra.
+Qed.
+
+(* ---------------- degenerate hulls: one point, a segment ---------------- *)
+Lemma on_segment_param (a b p : pt) :
+  cpc a b p == 0 -> Qmin (fst a) (fst b) <= fst p <= Qmax (fst a) (fst b) -> Qmin (snd a) (snd b) <= snd p <= Qmax (snd a) (snd b) ->
+  exists tau, 0 <= tau <= 1 /\ fst p == fst a + tau * (fst b - fst a) /\ snd p == snd a + tau * (snd b - snd a).
+Proof.
+  destruct a as [ax ay], b as [bx by_], p as [px py]. unfold cpc, cross, psub. cbn [fst snd]. intros E [X1 X2] [Y1 Y2].
+  destruct (Qeq_dec ax bx) as [Ex|Ex].
+  - (* vertical or a single point *)
+    assert (Hpx : px == ax).
+    { rewrite Ex in X1, X2. rewrite Q.min_id in X1. rewrite Q.max_id in X2. rewrite Ex. lra. }
+    destruct (Qeq_dec ay by_) as [Ey|Ey].
+    + exists 0. rewrite Ey in Y1, Y2. rewrite Q.min_id in Y1. rewrite Q.max_id in Y2. repeat split; lra.
+    + exists ((py - ay) / (by_ - ay)). 
+      assert (Hd : ~ by_ - ay == 0) by lra.
+      split; [|split; [rewrite Hpx, Ex; field_simplify_eq; [ring|exact Hd] | field; exact Hd]].
+      destruct (Qlt_le_dec ay by_) as [L|L].
+      * rewrite Q.min_l in Y1 by lra. rewrite Q.max_r in Y2 by lra. apply Qdiv_unit; lra.
+      * rewrite Q.min_r in Y1 by lra. rewrite Q.max_l in Y2 by lra.
+        setoid_replace ((py - ay) / (by_ - ay)) with ((ay - py) / (ay - by_)) by (field; split; lra). apply Qdiv_unit; lra.
+  - exists ((px - ax) / (bx - ax)).
+    assert (Hd : ~ bx - ax == 0) by lra.
+    split; [|split; [field; exact Hd|]].
+    + destruct (Qlt_le_dec ax bx) as [L|L].
+      * rewrite Q.min_l in X1 by lra. rewrite Q.max_r in X2 by lra. apply Qdiv_unit; lra.
+      * rewrite Q.min_r in X1 by lra. rewrite Q.max_l in X2 by lra.
+        setoid_replace ((px - ax) / (bx - ax)) with ((ax - px) / (ax - bx)) by (field; split; lra). apply Qdiv_unit; lra.
+    + (* collinearity gives the ordinate *)
+      assert (E' : (bx - ax) * (py - ay) == (by_ - ay) * (px - ax)) by lra.
+      set (t := (px - ax) / (bx - ax)).
+      assert (Ht : t * (bx - ax) == px - ax) by (unfold t; field; exact Hd).
+      assert (G : (bx - ax) * (py - (ay + t * (by_ - ay))) == 0).
+      { setoid_replace ((bx - ax) * (py - (ay + t * (by_ - ay)))) with ((bx - ax) * (py - ay) - (t * (bx - ax)) * (by_ - ay)) by ring.
+        rewrite Ht, E'. ring. }
+      apply Qmult_integral in G. destruct G as [G|G]; [contradiction|lra].
+Qed.
+
+Theorem inside_range (poly : list pt) (c d : pt) : poly <> [] -> strictly_convex_ccw poly = true -> left_of_all_edges poly c = true ->
+  (exists v, In v poly /\ cross d c <= cross d v) /\ (exists v, In v poly /\ cross d v <= cross d c).
+Proof.
+  intros Hne Hc Hin.
+  destruct poly as [|a [|b [|x r]]]; [congruence| | |].
+  - (* one point *)
+    cbn [left_of_all_edges] in Hin. unfold pt_eqb in Hin. apply andb_true_iff in Hin. destruct Hin as [E1 E2]. apply Qeqb_eq in E1, E2.
+    assert (E : cross d c == cross d a) by (unfold cross; rewrite E1, E2; reflexivity).
+    split; exists a; (split; [left; reflexivity|lra]).
+  - (* a segment *)
+    cbn [left_of_all_edges] in Hin. repeat (apply andb_true_iff in Hin; destruct Hin as [Hin ?]).
+    apply Qeqb_eq in Hin. repeat match goal with H : Qle_bool _ _ = true |- _ => apply Qleb_le in H end.
+    destruct (on_segment_param a b c Hin ltac:(split; assumption) ltac:(split; assumption)) as [tau [[T0 T1] [Px Py]]].
+    assert (E : cross d c == cross d a + tau * (cross d b - cross d a)) by (unfold cross; rewrite Px, Py; ring).
+    destruct (Qlt_le_dec (cross d a) (cross d b)) as [L|L].
+    + assert (0 <= tau * (cross d b - cross d a)) by (apply Qmult_le_0_compat; lra).
+      assert (0 <= (1 - tau) * (cross d b - cross d a)) by (apply Qmult_le_0_compat; lra).
+      split; [exists b|exists a]; (split; [cbn; auto|lra]).
+    + assert (0 <= tau * (cross d a - cross d b)) by (apply Qmult_le_0_compat; lra).
+      assert (0 <= (1 - tau) * (cross d a - cross d b)) by (apply Qmult_le_0_compat; lra).
+      split; [exists a|exists b]; (split; [cbn; auto|lra]).
+  - split; [apply inside_below_a_vertex|apply inside_above_a_vertex]; try assumption; cbn [length]; lia.
+Qed.
+
+(* ---------------- separation of everything inside the two polygons ---------------- *)
+From BZ Require Import Theory.HullTheory.
+Lemma is_separating_cases d p1 p2 : is_separating d p1 p2 = true ->
+  0 < fst d * fst d + snd d * snd d /\
+  ((exists m M, M < m /\ (forall v, In v p1 -> m <= cross d v) /\ (forall v, In v p2 -> cross d v <= M)) \/
+   (exists m M, M < m /\ (forall v, In v p2 -> m <= cross d v) /\ (forall v, In v p1 -> cross d v <= M))).
+Proof.
+  intros Hs. unfold is_separating in Hs.
+  set (n := fst d * fst d + snd d * snd d) in *.
+  destruct (qmin_list (map (proj d) p1)) as [mn1|] eqn:A1; [|discriminate].
+  destruct (qmax_list (map (proj d) p1)) as [mx1|] eqn:B1; [|discriminate].
+  destruct (qmin_list (map (proj d) p2)) as [mn2|] eqn:A2; [|discriminate].
+  destruct (qmax_list (map (proj d) p2)) as [mx2|] eqn:B2; [|discriminate].
+  assert (Hn0 : 0 <= n) by (unfold n; nra).
+  assert (Hn : 0 < n).
+  { destruct (Qlt_le_dec 0 n) as [H|H]; [exact H|]. exfalso.
+    assert (En : n == 0) by lra.
+    (* with a zero direction every projection is x / 0 = 0 *)
+    assert (Z : forall ps m, (qmin_list (map (proj d) ps) = Some m \/ qmax_list (map (proj d) ps) = Some m) -> m == 0).
+    { intros ps m Hm.
+      assert (Hall : forall x, In x (map (proj d) ps) -> x == 0).
+      { intros x Hx. apply in_map_iff in Hx. destruct Hx as [p [<- _]]. unfold proj. fold n. rewrite En. unfold Qdiv. rewrite Qmult_comm. reflexivity. }
+      destruct (map (proj d) ps) as [|y l] eqn:El; [destruct Hm; discriminate|].
+      assert (Hy : y == 0) by (apply Hall; left; reflexivity).
+      assert (Hl : forall x, In x l -> x == 0) by (intros x Hx; apply Hall; right; exact Hx).
+      clear Hall El.
+      destruct Hm as [Hm|Hm]; cbn [qmin_list qmax_list] in Hm; injection Hm as <-.
+      - revert y Hy. induction l as [|z l IHl]; intros y Hy; cbn [fold_left]; [exact Hy|].
+        apply IHl; [intros x Hx; apply Hl; right; exact Hx|]. rewrite Hy, (Hl z (or_introl eq_refl)). reflexivity.
+      - revert y Hy. induction l as [|z l IHl]; intros y Hy; cbn [fold_left]; [exact Hy|].
+        apply IHl; [intros x Hx; apply Hl; right; exact Hx|]. rewrite Hy, (Hl z (or_introl eq_refl)). reflexivity. }
+    pose proof (Z p1 mn1 (or_introl A1)). pose proof (Z p1 mx1 (or_intror B1)).
+    pose proof (Z p2 mn2 (or_introl A2)). pose proof (Z p2 mx2 (or_intror B2)).
+    apply orb_true_iff in Hs. destruct Hs as [Hs|Hs]; apply Qltb_lt in Hs; lra. }
+  split; [exact Hn|].
+  assert (P : forall (ps : list pt) m, (forall x, In x (map (proj d) ps) -> m <= x) -> forall p, In p ps -> m * n <= cross d p).
+  { intros ps m Hb p Hp. specialize (Hb (proj d p) (in_map _ _ _ Hp)). unfold proj in Hb. fold n in Hb.
+    assert (E : cross d p / n * n == cross d p) by (field; lra). set (q := cross d p / n) in *. nra. }
+  assert (P' : forall (ps : list pt) m, (forall x, In x (map (proj d) ps) -> x <= m) -> forall p, In p ps -> cross d p <= m * n).
+  { intros ps m Hb p Hp. specialize (Hb (proj d p) (in_map _ _ _ Hp)). unfold proj in Hb. fold n in Hb.
+    assert (E : cross d p / n * n == cross d p) by (field; lra). set (q := cross d p / n) in *. nra. }
+  apply orb_true_iff in Hs. destruct Hs as [Hs|Hs]; apply Qltb_lt in Hs.
+  - left. exists (mn1 * n), (mx2 * n). split; [nra|]. split.
+    + apply P. apply qmin_list_bound. exact A1.
+    + apply P'. apply qmax_list_bound. exact B2.
+  - right. exists (mn2 * n), (mx1 * n). split; [nra|]. split.
+    + apply P. apply qmin_list_bound. exact A2.
+    + apply P'. apply qmax_list_bound. exact B1.
+Qed.
+
+(* every control point on one side: what a separating direction of the two HULLS says about the two control nets *)
+Theorem separating_hulls_separate_the_nets (pts1 pts2 : list pt) (d : pt) :
+  pts1 <> [] -> pts2 <> [] -> hull_ok pts1 = true -> hull_ok pts2 = true ->
+  is_separating d (simple_convex_hull pts1) (simple_convex_hull pts2) = true ->
+  (exists m M, M < m /\ (forall c, In c pts1 -> m <= cross d c) /\ (forall c, In c pts2 -> cross d c <= M)) \/
+  (exists m M, M < m /\ (forall c, In c pts2 -> m <= cross d c) /\ (forall c, In c pts1 -> cross d c <= M)).
+Proof.
+  intros N1 N2 H1 H2 Hs.
+  assert (Hull : forall pts, pts <> [] -> hull_ok pts = true ->
+            simple_convex_hull pts <> [] /\ strictly_convex_ccw (simple_convex_hull pts) = true /\
+            forall c, In c pts -> left_of_all_edges (simple_convex_hull pts) c = true).
+  { intros pts N H. unfold hull_ok in H. repeat (apply andb_true_iff in H; destruct H as [H ?]).
+    split; [|split; [assumption|]].
+    - destruct pts; [congruence|]. match goal with Hx : negb _ = true |- _ => apply negb_true_iff in Hx; apply Nat.eqb_neq in Hx end.
+      intros E. rewrite E in *. cbn [length] in *. congruence.
+    - intros c Hc. exact (proj1 (forallb_forall _ _) H c Hc). }
+  destruct (Hull pts1 N1 H1) as [A1 [B1 C1]]. destruct (Hull pts2 N2 H2) as [A2 [B2 C2]].
+  destruct (is_separating_cases d _ _ Hs) as [_ [[m [M [HmM [L U]]]]|[m [M [HmM [L U]]]]]]; [left|right]; exists m, M; (split; [exact HmM|split]).
+  - intros c Hc. destruct (proj2 (inside_range _ c d A1 B1 (C1 c Hc))) as [v [Hv Hle]]. specialize (L v Hv). lra.
+  - intros c Hc. destruct (proj1 (inside_range _ c d A2 B2 (C2 c Hc))) as [v [Hv Hle]]. specialize (U v Hv). lra.
+  - intros c Hc. destruct (proj2 (inside_range _ c d A2 B2 (C2 c Hc))) as [v [Hv Hle]]. specialize (L v Hv). lra.
+  - intros c Hc. destruct (proj1 (inside_range _ c d A1 B1 (C1 c Hc))) as [v [Hv Hle]]. specialize (U v Hv). lra.
+Qed.
